@@ -14,7 +14,7 @@ EXPLANATION = (
     "every worker completes the failing patch; (R5) run-ahead work is undone through ModifiedFiles::rollback (renames included); "
     "(R6) the save phase is not started while a worker error is pending; (R7) no parallel region contains both directory removal "
     "and file/directory creation (workers own files but share directories); (R8) a worker only loads names of its own file patch "
-    "and both names of a two-name file patch are registered together for scheduling. Not decided: output equality as such and the "
+    "and both names of a two-name file patch are registered together for scheduling. (R13) every file patch of a loaded patch is registered with the distributor and pushed onto a queue; (R14) no entry leaves a worker's file map before it is saved. Not decided: output equality as such and the "
     "correctness of the name distributor (C07)."
 )
 LEVEL_NOTE = "Undecided: equality of outputs; functional correctness of FilenameDistributor (C07); rayon's for_each barrier is trusted."
